@@ -10,7 +10,7 @@ CONSTANTS
   MaxKeys = 4
   MaxLs = 3
   MaxLegacy = 5
-  GoodKeys = {1, 2, 3, 4, 6, 7}
+  GoodKeys = {1, 2, 3, 4, 6, 7, 8}
   SvcListeners <- SvcLs6
 INVARIANTS DumpInv
 VIEW GView
